@@ -569,9 +569,13 @@ def aggregates_deep(prog, ctx, adt_pred, depth=3):
 
 
 def must_pass(ctx, block, targets=None):
-    """is `block` on every path from entry to every reachable success exit?  (P8, block-level)"""
-    succ_exits = [e["bb"] for e in exits(ctx) if e["kind"] != "err"]
+    """is `block` on every path from entry to every reachable success exit?  (P8, block-level;
+    evaluated after pruning the edges that become infeasible once the block is skipped)"""
+    if block == 0:
+        return True
+    rem = set((p, block) for p in ctx.body.preds()[block])
+    c2 = ctx.with_removed(rem).settle()
+    succ_exits = [e["bb"] for e in exits(c2) if e["kind"] != "err"]
     if targets is not None:
-        succ_exits = targets
-    reach = ctx.body.reachable(ctx.removed, removed_blocks=frozenset([block]))
-    return not any(e in reach for e in succ_exits)
+        succ_exits = [t for t in targets if t in c2.T.reach]
+    return not succ_exits
